@@ -350,8 +350,9 @@ theorem endpoint_nonce_unique (C : Crypto) (L : Loc) (isClient : Bool) (fp : Opt
 
 /-- **send_nonce_unique at the moment of publication**: the run loop publishes `write_epoch`, then
 `write_seq`, then the state `Connected`; sender threads check the state, load the epoch, `fetch_add`
-the sequence number.  For *every* interleaving of these atomic steps, with any number of senders doing
-any number of sends, every record a sender seals carries the published epoch `E` and a sequence number
+the sequence number; once it has published, the run loop may also take a number for its close_notify alert
+(`fetch_add` on the same counter, `PAct.alert`).  For *every* interleaving of these atomic steps, with any
+number of senders doing any number of sends, every record so sealed carries the published epoch `E` and a sequence number
 ≥ `S` (the first one after the Finished record, which used `S - 1`), and no `(epoch, seq)` occurs
 twice. -/
 theorem publication_race_free (E S : Nat) (acts : List PAct) :
